@@ -22,7 +22,7 @@ def build(HashTable, c, p):
     keys = arr(c["keys"], kd)
     kw = {} if c["mod"] is None else {"mod": c["mod"]}
     if p["state"] == "array":
-        return HashTable(keys, arr(c["vals"], "int64"), **kw)
+        return HashTable(keys, common.typed(c["vals"], p.get("vdtype", "int64")), **kw)
     t = HashTable(keys, pyint(c["vals"][0]), value_dtype=int, **kw)
     if p["state"] == "filled":
         t[keys[:1]] = t[keys[:1]]          # first write materialises the scalar
@@ -62,7 +62,7 @@ def run_op(c, p):
     elif op == "set1":
         t[_qint(c["q"][0], kd)] = pyint(c["v"][0])
     elif op == "setv":
-        t[arr(c["q"], p.get("qdtype", kd))] = arr(c["v"], "int64") if p.get("vvec") else pyint(c["v"][0])
+        t[arr(c["q"], p.get("qdtype", kd))] = common.typed(c["v"], p.get("vdtype", "int64")) if p.get("vvec") else pyint(c["v"][0])
     elif op == "contains":
         res = t.contains(arr(c["q"], p.get("qdtype", kd)))
     elif op == "fill":
@@ -94,7 +94,8 @@ def gen(E, p):
     if n > 1:
         E.assume(z3.Distinct(*keys))
     nv = n if p["state"] == "array" else 1
-    vals = [E.int(f"v{i}", -VB, VB) for i in range(nv)]
+    fv = p.get("vdtype") == "float64"      # float-valued table: values are IEEE bit patterns, stored and returned unchanged
+    vals = [E.bv(f"v{i}", 64) for i in range(nv)] if fv else [E.int(f"v{i}", -VB, VB) for i in range(nv)]
     mods = list(range(1, p["modmax"] + 1)) + ([None] if p.get("defaultmod", True) else [])
     mod = E.choose("mod", mods)
     c = dict(keys=keys, vals=vals, mod=mod)
@@ -111,7 +112,7 @@ def gen(E, p):
     if op in ("set1", "fill"):
         c["v"] = [E.int("w0", -VB, VB)]
     elif op == "setv":
-        c["v"] = [E.int(f"w{j}", -VB, VB) for j in range(len(c["q"]) if p.get("vvec") else 1)]
+        c["v"] = [(E.bv(f"w{j}", 64) if fv else E.int(f"w{j}", -VB, VB)) for j in range(len(c["q"]) if p.get("vvec") else 1)]
     elif op in ("add", "eq"):
         c["v"] = [E.int(f"w{i}", -VB, VB) for i in range(n if (op == "eq" or p["state"] == "array") else 1)]
     return c
@@ -126,6 +127,8 @@ def sym(E, p, kf):
     val_of = (lambda i: vals[i]) if p["state"] == "array" else (lambda i: vals[0])
     if p.get("like"):
         val_of = lambda i: z3.IntVal(0 if p["like"][-1] == "zeros" else 1)
+        if p.get("vdtype") == "float64":
+            val_of = lambda i: z3.BitVecVal(0 if p["like"][-1] == "zeros" else 0x3FF0000000000000, 64)
     q = c.get("q", [])
     signed_key = p.get("kdtype", "int64") == "int8"
 
@@ -230,7 +233,7 @@ def conc(case):
     got = outcome(lambda: run_op(c, p))
     d = {k: (vals[i] if p["state"] == "array" else vals[0]) for i, k in enumerate(keys)}
     if p.get("like"):
-        d = {k: (0 if p["like"][-1] == "zeros" else 1) for k in keys}
+        d = {k: (0 if p["like"][-1] == "zeros" else (1 if p.get("vdtype") != "float64" else 0x3FF0000000000000)) for k in keys}
     q = c.get("q", [])
     A = common.ref_array
     res = {"k": "none"}
@@ -307,6 +310,10 @@ def jobs(tier, seed):
                 out.append(dict(base, op="setv", state=state, kdtype=kd, like=like, vvec=True, nq=1 if kd != "int64" else base["nq"]))
         out.append(dict(base, op="getv", state="array", kdtype=kd, like=["ones"], nq=1))
         out.append(dict(base, op="set1", state="scalar", kdtype=kd, like=["zeros", "ones"]))
+    # float-valued tables: values (bit patterns) are stored and returned unchanged, also by a table derived with zeros_like / ones_like
+    for like in ([], ["zeros"], ["ones", "zeros"]):
+        out.append(dict(base, op="setv", state="array", vdtype="float64", like=like, vvec=True))
+        out.append(dict(base, op="getv", state="array", vdtype="float64", like=like))
     return [dict(h="C11.table", p=p) for p in out]
 
 
